@@ -3,7 +3,7 @@
     refuted in Coq; the denotation clauses are decided by evaluating [den] on
     the implementation's observed results.  Only statements. *)
 Require Import AT.Model.Base AT.Model.Rose AT.Model.Nav AT.Model.Resolver AT.Spec.ResolverSpec.
-Require AT.Proofs.GlobProofs AT.Proofs.GlobDen AT.Proofs.GlobOrder AT.Proofs.IterOrder.
+Require AT.Proofs.GlobProofs AT.Proofs.GlobDen AT.Proofs.GlobOrder AT.Proofs.IterOrder AT.Proofs.GlobGet.
 Import AT.Proofs.GlobProofs.
 
 (** within one name: the regex the code compiles from a pattern (table, (?ms)
@@ -79,6 +79,24 @@ Theorem C08_relaxed_nodup : forall nm ic t comps p,
   NoDup (AT.Proofs.GlobDen.gl nm ic t comps p).
 Proof. intros nm ic t comps p H. apply AT.Proofs.GlobOrder.relaxed_nodup. apply AT.Proofs.GlobOrder.guard_of_statement. exact H. Qed.
 Print Assumptions C08_relaxed_nodup.
+
+(** in strict mode glob agrees with get on wildcard-free paths over
+    sibling-unique names: the same node (as a one-element list), the same error
+    class - component lists and whole path strings (root component included) *)
+Theorem C08_strict_agrees_with_get : forall nm ic t, AT.Proofs.GlobGet.sibling_unique nm ic t ->
+  forall comps, AT.Proofs.GlobGet.plain comps = true -> forall p,
+  glob_rec nm ic false t comps p
+  = match get_loop nm ic false t comps p with
+    | Ok (Some q) => Ok [q] | Ok None => Ok [] | Err e => Err e | OutOfFuel => OutOfFuel end.
+Proof. exact AT.Proofs.GlobGet.glob_get_strict. Qed.
+Print Assumptions C08_strict_agrees_with_get.
+Theorem C08_strict_agrees_with_get_path : forall nm ic t sep, AT.Proofs.GlobGet.sibling_unique nm ic t ->
+  forall p path, AT.Proofs.GlobGet.plain (split sep path) = true ->
+  glob nm ic false sep t p path
+  = match get nm ic false sep t p path with
+    | Ok (Some q) => Ok [q] | Ok None => Ok [] | Err e => Err e | OutOfFuel => OutOfFuel end.
+Proof. exact AT.Proofs.GlobGet.glob_get_path. Qed.
+Print Assumptions C08_strict_agrees_with_get_path.
 
 Example C08_example :
   let t := T 0 [T 1 [T 3 []]; T 2 []] in
